@@ -1137,11 +1137,14 @@ class MutableFileVersion:
         after downloading it, then reuploading it. I am less efficient
         than _do_update_update, but am necessary for certain updates.
         """
+        # Read the uploadable once: modify() runs the modifier again
+        # when it has to retry, and a second read() would return nothing.
+        new_data = b"".join(data.read(data.get_size()))
         def m(old, servermap, first_time):
             start = offset
-            rest = offset + data.get_size()
+            rest = offset + len(new_data)
             new = old[:start]
-            new += b"".join(data.read(data.get_size()))
+            new += new_data
             new += old[rest:]
             return new
         return self._modify(m, None)
